@@ -65,7 +65,7 @@ func (in *Interp) nativeArg(v Value) any {
 		// error / Stringer first
 		if _, isPtrOrNamed := v.T.(*types.Named); isPtrOrNamed || isPointer(v.T) {
 			for _, name := range []string{"Error", "String"} {
-				if m := in.P.Prog.LookupMethod(v.T, nil, name); m != nil && len(m.Blocks) > 0 &&
+				if m := in.findMethod(v.T, name); m != nil && len(m.Blocks) > 0 &&
 					m.Signature.Params().Len() == 0 && m.Signature.Results().Len() == 1 {
 					if p, ok := v.V.(*Value); ok && p == nil {
 						return "<nil>"
@@ -198,7 +198,7 @@ func (in *Interp) writeTo(w Value, text string) {
 	if !ok || ifc.T == nil {
 		return
 	}
-	m := in.P.Prog.LookupMethod(ifc.T, nil, "Write")
+	m := in.findMethod(ifc.T, "Write")
 	if m == nil {
 		return
 	}
@@ -369,9 +369,7 @@ func init() {
 		"(*go/token.FileSet).AddFile": func(in *Interp, fn *ssa.Function, a []Value) Value {
 			fs := (*a[0].(*Value)).(*Native).V.(*token.FileSet)
 			f := fs.AddFile(argStr(in, a[1]), int(a[2].(Int).Signed()), int(a[3].(Int).Signed()))
-			p := new(Value)
-			*p = &Native{V: f}
-			return p
+			return in.nativeCell(f)
 		},
 		"(*go/token.FileSet).Position": func(in *Interp, fn *ssa.Function, a []Value) Value {
 			fs := (*a[0].(*Value)).(*Native).V.(*token.FileSet)
@@ -384,9 +382,7 @@ func init() {
 			if f == nil {
 				return (*Value)(nil)
 			}
-			p := new(Value)
-			*p = &Native{V: f}
-			return p
+			return in.nativeCell(f)
 		},
 		"(*go/token.File).Pos": func(in *Interp, fn *ssa.Function, a []Value) Value {
 			f := nativeFile(a[0])
@@ -429,6 +425,32 @@ func init() {
 			return p.String()
 		},
 	}
+}
+
+// nativeCell returns the one cell standing for a host object, so that pointer
+// comparisons in interpreted code behave like the host's.
+func (in *Interp) nativeCell(obj any) *Value {
+	if in.nativeCells == nil {
+		in.nativeCells = map[any]*Value{}
+	}
+	if p, ok := in.nativeCells[obj]; ok {
+		return p
+	}
+	p := new(Value)
+	*p = &Native{V: obj}
+	in.nativeCells[obj] = p
+	return p
+}
+
+// findMethod looks a method up in the method set of T (nil if absent).
+func (in *Interp) findMethod(T types.Type, name string) *ssa.Function {
+	ms := in.P.Prog.MethodSets.MethodSet(T)
+	for i := 0; i < ms.Len(); i++ {
+		if ms.At(i).Obj().Name() == name {
+			return in.P.Prog.MethodValue(ms.At(i))
+		}
+	}
+	return nil
 }
 
 func nativeFile(v Value) *token.File {
